@@ -87,6 +87,16 @@ func genCommand(t *rapid.T) (text, kind string, valid bool) {
 				host = host + ws + "top"
 			}
 		}
+		if rapid.IntRange(0, 7).Draw(t, "lRawByte") == 5 {
+			// a byte that is not valid UTF-8 inside a declared value (the command text is a byte string: whatever the
+			// client declares is copied as it stands, or the call fails)
+			raw := rapid.SampledFrom([]string{"\xff", "\xfe", "\xc3", "\x80", "\xed\xa0\x80"}).Draw(t, "lRawByteVal")
+			if rapid.Bool().Draw(t, "lRawByteInUser") {
+				user = user[:len(user)/2] + raw + user[len(user)/2:]
+			} else {
+				host = host[:len(host)/2] + raw + host[len(host)/2:]
+			}
+		}
 		toks := []string{"IFVer=6"}
 		valid = true
 		switch rapid.IntRange(0, 4).Draw(t, "lver") {
